@@ -8,7 +8,9 @@
 (* outputs it spends (what the node hands to the indexer as the block's     *)
 (* spent outputs, in input order).  Scripts are identified by name; all     *)
 (* that matters of a script is whether it is empty and whether its first    *)
-(* byte is OP_RETURN, and which scripts are the same byte string.           *)
+(* byte is OP_RETURN, and which scripts are the same byte string: whether   *)
+(* a script parses, is standard, is too long to ever be spent, plays no     *)
+(* part (the kinds "unparse", "unparse2", "oversize" are elements).         *)
 (*                                                                         *)
 (*   Elements(b): built the way the code proceeds - first every output      *)
 (*     script of every transaction, skipping the empty ones and those that  *)
@@ -54,9 +56,16 @@ Scripts == { "empty",        \* no bytes
              "opretbare",    \* OP_RETURN alone
              "retlater",     \* OP_1 OP_RETURN <data>: OP_RETURN, but not first
              "p2pkh", "p2pkh2", \* two different pay-to-pubkey-hash scripts
-             "p2pk", "multisig", "wit" }
+             "p2pk", "multisig", "wit",
+             \* scripts nobody can spend, which BIP158 does NOT exclude: the rule
+             \* looks at the length and the first byte only
+             "unparse",      \* a push opcode announcing more bytes than follow
+             "unparse2",     \* a lone OP_PUSHDATA1
+             "oversize" }    \* 10001 bytes (over the script size limit), first byte not OP_RETURN
+\* the scripts of the layouts with three and more slots
+ScriptsQ == Scripts \ {"p2pkh2", "multisig", "wit"}
 Core    == {"empty", "opret", "p2pkh", "p2pk", "wit"}
-Mini    == {"empty", "opret", "p2pkh", "p2pk"}
+Mini    == {"empty", "opret", "p2pkh", "unparse"}
 
 IsEmpty(s)  == s = "empty"
 IsOpRet(s)  == s \in {"opret", "opretbare"}
@@ -138,9 +147,9 @@ LayoutF(S)  == { <<Tx(<< >>, << >>)>> } \cup { <<Tx(<<a>>, << >>), Tx(<< >>, <<b
 
 Tiny == {"empty", "opret", "p2pkh"}
 Singles ==
-    LayoutA1(Scripts) \cup LayoutA2(Scripts) \cup LayoutB(Scripts) \cup LayoutF(Scripts)
-    \cup LayoutC(IF Thorough THEN Scripts ELSE Mini)
-    \cup LayoutE(IF Thorough THEN Scripts ELSE Mini)
+    LayoutA1(Scripts) \cup LayoutA2(Scripts) \cup LayoutB(IF Thorough THEN Scripts ELSE ScriptsQ) \cup LayoutF(Scripts)
+    \cup LayoutC(IF Thorough THEN ScriptsQ ELSE Mini)
+    \cup LayoutE(IF Thorough THEN ScriptsQ ELSE Mini)
     \cup LayoutD(IF Thorough THEN Core ELSE Tiny)
 
 \* chains of three blocks over small blocks
